@@ -599,6 +599,32 @@ class Facts:
                 todo.append(c)
         return out
 
+    def callable_bodies(self, fn):
+        """bodies that `fn` hands to combinators or calls as its own helpers: its closures (transitively) plus every function of the same
+        crate it names (as a call or as a function item, `.map(helper)`), so that `|x| body` and a named `fn helper(x) { body }` are found alike"""
+        from . import thir as _thir
+        out = list(self.descendants(fn))
+        seen = {id(x) for x in out} | {id(fn)}
+        todo = [fn] + out
+        while todo:
+            g = todo.pop()
+            try:
+                rt = _thir.root(g)
+            except Exception:
+                continue
+            for n in _thir.walk(rt):
+                if isinstance(n, dict) and n.get("k") == "fn" and str(n.get("def", "")).split("::")[0] == fn.crate.name:
+                    h = self.find_fn(n["def"])
+                    if h is not None and id(h) not in seen:
+                        seen.add(id(h))
+                        out.append(h)
+                        todo.append(h)
+                        for c in self.descendants(h):
+                            if id(c) not in seen:
+                                seen.add(id(c))
+                                out.append(c)
+        return out
+
     def crate_fns(self, crate):
         return [f for f in self.fn_by_def.values() if f.crate.name == crate]
 
